@@ -18,6 +18,7 @@ import math
 import pathlib
 import re
 import uuid
+from .codec import srepr as codec_srepr
 from decimal import Decimal, InvalidOperation
 from enum import Enum
 from fractions import Fraction
@@ -460,7 +461,7 @@ def has_overlap(ts, d, strict):  # noqa: C901, PLR0911
         return any(has_overlap(ts[1], k, strict) or has_overlap(ts[2], v, strict) for k, v in d.items())
     if h == "Literal":
         verdict, allowed = _literal_load(LITERALS[ts[1]], d, strict)
-        return len({(type(a), repr(a)) for a in allowed}) >= 2
+        return len({(type(a), codec_srepr(a)) for a in allowed}) >= 2
     return False
 
 
